@@ -179,7 +179,7 @@ def predict(pm, op, src_kind):
     if k == "fix":
         return pm, pm
     if k == "directives":
-        if src_kind != "sdl":
+        if src_kind.split(":")[0] != "sdl":
             return pm, pm  # no AST nodes: nothing is applied
         r = apply_directives(pm)
         return r, r
